@@ -86,8 +86,32 @@ def _read(F, fo):
     return meta, recs
 
 
+# The first few files a worker process writes are kept and read again in every later run of the same
+# process (each batch of runs has its own freshly forked process): whatever fills up, wraps around or is
+# re-used after hundreds of other schemas must not change how an earlier file reads.  Such a violation
+# depends on the runs before it, so its replay file is the run-index range of the batch.
+_CANARIES = []
+
+
+def _check_canaries(F, ctx):
+    for c in _CANARIES:
+        c["age"] += 1
+        if c["age"] % 4 and c["age"] < 64:
+            continue
+        try:
+            meta, recs = _read(F, io.BytesIO(c["data"]))
+        except Exception as e:  # noqa
+            raise Violation("history", "earlier-file-no-longer-readable", detail={"file_of_run_age": c["age"], "exc": jsonable(e)}, scenario=c["desc"])
+        ctx.stat("canary_rereads")
+        if meta["canonical"] != c["canonical"] or len(recs) != len(c["recs"]) or not all(refavro.value_eq(a, b) for a, b in zip(recs, c["recs"])):
+            raise Violation("history", "earlier-file-reads-differently-later",
+                            detail={"runs_since_written": c["age"], "first": jsonable(c["recs"][:2]), "now": jsonable(recs[:2]),
+                                    "canonical_first": c["canonical"], "canonical_now": meta["canonical"]}, scenario=c["desc"])
+
+
 def run_one(ch, ctx):
     F = common.fa()
+    _check_canaries(F, ctx)
     sc = common.container_scenario(ch, max_records=12, hints=True, big=ch.chance(10), size_profiles=True)
     sizes = common.encoded_sizes(sc) if sc.profile == "small" else [8]
     sc.sync_interval = common.draw_sync_interval(ch, sizes, sc)
@@ -215,6 +239,8 @@ def run_one(ch, ctx):
         data = None
     _verify(F, sc, meta, recs, desc, info)
     ctx.evals += 1
+    if len(_CANARIES) < 3 and data is not None and 0 < len(data) < 8192 and recs:
+        _CANARIES.append({"data": data, "recs": recs, "canonical": meta["canonical"], "desc": desc, "age": 0})
     # grouping independence: same records under a second sync_interval read back identically
     si2 = common.draw_sync_interval(ch, sizes)   # (second grouping: always a freshly drawn interval)
     old = sc.sync_interval
